@@ -71,9 +71,10 @@ macro_rules! fam_contract {
 #[macro_export]
 macro_rules! fam_emis {
     ($P:literal, $p:expr, $ast:expr, $x:expr, $t:expr) => {
-        $crate::fam_emis!($P, $p, $ast, $x, $t, [0u8])
+        $crate::fam_emis!($P, $p, $ast, $x, $t, [0u8], false, false)
     };
-    ($P:literal, $p:expr, $ast:expr, $x:expr, $t:expr, $perms:expr) => {{
+    ($P:literal, $p:expr, $ast:expr, $x:expr, $t:expr, $perms:expr, $content:expr, $cfail:expr) => {{
+        #[allow(unused_imports)]
         use $crate::errs::MkErr;
         let r = $p.parse($x);
         $crate::contract(&r);
@@ -99,12 +100,14 @@ macro_rules! fam_emis {
         }
         $crate::check!(concat!($P, ":acceptance"), e.is_some() == out.is_some());
         $crate::check!(concat!($P, ":output"), $crate::obs::same(&out, &e));
-        if out.is_some() && e.is_some() && !env.overflow {
-            $crate::check!(concat!($P, ":kept-emission-dropped"), errs.len() >= env.n_emis);
-            $crate::check!(concat!($P, ":abandoned-emission-leaks"), errs.len() <= env.n_emis);
-            let mut i = 0;
-            while i < $crate::refsem::MAX_EMIS {
-                if i < errs.len() && i < env.n_emis {
+        if out.is_some() && e.is_some() {
+            // every emitter k reports emit_weight(k) = 1, 2, 4, 8 copies: the LENGTH of the error list identifies
+            // the surviving subset of emitters (reading the contents is only affordable with a single push site)
+            $crate::check!(concat!($P, ":kept-emission-dropped"), errs.len() >= env.wsum);
+            $crate::check!(concat!($P, ":abandoned-emission-leaks"), errs.len() <= env.wsum);
+            if $content && !env.overflow {
+                let mut i = 0;
+                while i < errs.len() && i < env.n_emis && i < $crate::refsem::MAX_EMIS {
                     let (a, b) = (&errs[i], &env.emis[i]);
                     if b.id == 0xEE {
                         // recovered syntax error: the would-be primary error, at the furthest failure
@@ -120,17 +123,19 @@ macro_rules! fam_emis {
                             a.start() == b.start as usize && a.end() == b.end as usize
                         );
                     }
+                    i += 1;
                 }
-                i += 1;
             }
         }
         if out.is_none() && e.is_none() {
             $crate::check!(concat!($P, ":failure-has-error"), !errs.is_empty());
-            if let Some(last) = errs.last() {
-                $crate::check!(
-                    concat!($P, ":failure-error-at-furthest"),
-                    env.far.custom || !env.far.set || last.start() == env.far.pos
-                );
+            if $cfail {
+                if let Some(last) = errs.last() {
+                    $crate::check!(
+                        concat!($P, ":failure-error-at-furthest"),
+                        env.far.custom || !env.far.set || last.start() == env.far.pos
+                    );
+                }
             }
         }
         $crate::cover!("cover:accept-clean", out.is_some() && errs.is_empty());
@@ -153,19 +158,21 @@ macro_rules! fam_far {
             $crate::check!(concat!($P, ":exactly-one-error"), errs.len() == 1);
             if let Some(le) = errs.last() {
                 let far = env.far;
-                $crate::check!(concat!($P, ":span-well-formed"), le.start <= le.end && le.end <= $x.len());
+                use $crate::errs::MkErr;
+                let le_start = le.start();
+                $crate::check!(concat!($P, ":span-well-formed"), le.start() <= le.end() && le.end() <= $x.len());
                 // a user-supplied error (try_map / custom) is preserved iff one was raised at the furthest position
-                $crate::check!(concat!($P, ":custom-preserved"), !far.custom || le.custom);
-                $crate::check!(concat!($P, ":custom-spurious"), far.custom || !le.custom);
-                if !le.custom {
+                $crate::check!(concat!($P, ":custom-preserved"), !far.custom || le.custom());
+                $crate::check!(concat!($P, ":custom-spurious"), far.custom || !le.custom());
+                if !le.custom() {
                     // (the span of a user-supplied error is the user's; positions are judged on parser-made errors)
-                    $crate::check!(concat!($P, ":not-earlier-than-furthest"), le.start >= far.pos);
-                    $crate::check!(concat!($P, ":not-later-than-furthest"), le.start <= far.pos);
-                    let want = if le.start < $x.len() { Some($x[le.start]) } else { None };
-                    $crate::check!(concat!($P, ":found-is-token-at-start"), le.found == want);
+                    $crate::check!(concat!($P, ":not-earlier-than-furthest"), le_start >= far.pos);
+                    $crate::check!(concat!($P, ":not-later-than-furthest"), le_start <= far.pos);
+                    let want = if le_start < $x.len() { Some($x[le_start]) } else { None };
+                    $crate::check!(concat!($P, ":found-is-token-at-start"), le.found() == want);
                 }
-                $crate::check!(concat!($P, ":expected-missing"), le.exp & far.exp == far.exp);
-                $crate::check!(concat!($P, ":expected-extra"), le.exp & !far.exp == 0);
+                $crate::check!(concat!($P, ":expected-missing"), le.exp() & far.exp == far.exp);
+                $crate::check!(concat!($P, ":expected-extra"), le.exp() & !far.exp == 0);
             }
         }
         $crate::cover!("cover:accept", out.is_some());
@@ -188,9 +195,11 @@ macro_rules! fam_far_found {
         if out.is_none() {
             $crate::check!(concat!($P, ":exactly-one-error"), errs.len() == 1);
             if let Some(le) = errs.last() {
-                $crate::check!(concat!($P, ":span-well-formed"), le.start <= le.end && le.end <= $x.len());
-                let want = if le.start < $x.len() { Some($x[le.start]) } else { None };
-                $crate::check!(concat!($P, ":found-is-token-at-start"), le.custom || le.found == want);
+                use $crate::errs::MkErr;
+                let le_start = le.start();
+                $crate::check!(concat!($P, ":span-well-formed"), le.start() <= le.end() && le.end() <= $x.len());
+                let want = if le_start < $x.len() { Some($x[le_start]) } else { None };
+                $crate::check!(concat!($P, ":found-is-token-at-start"), le.custom() || le.found() == want);
             }
         }
         $crate::cover!("cover:accept", out.is_some());
@@ -202,7 +211,6 @@ macro_rules! fam_far_found {
 #[macro_export]
 macro_rules! fam_check_mode {
     ($P:literal, $p:expr, $x:expr) => {{
-        use $crate::errs::MkErr;
         let r1 = $p.parse($x);
         let r2 = $p.check($x);
         $crate::contract(&r1);
@@ -211,16 +219,8 @@ macro_rules! fam_check_mode {
         let (o1, e1) = r1.into_output_errors();
         let (_, e2) = r2.into_output_errors();
         $crate::check!(concat!($P, ":same-error-count"), e1.len() == e2.len());
-        let mut i = 0;
-        while i < 4 {
-            if i < e1.len() && i < e2.len() {
-                $crate::check!(
-                    concat!($P, ":same-error"),
-                    e1[i].id() == e2[i].id() && e1[i].start() == e2[i].start() && e1[i].end() == e2[i].end()
-                );
-            }
-            i += 1;
-        }
+        // (error CONTENTS are not compared here: reading them is not affordable for the solver when several
+        // sites push errors; every emitter k reports emit_weight(k) copies, so the length identifies the set)
         $crate::cover!("cover:accept", o1.is_some());
         $crate::cover!("cover:reject", o1.is_none());
         $crate::cover!("cover:has-errors", !e1.is_empty());
@@ -232,7 +232,6 @@ macro_rules! fam_check_mode {
 #[macro_export]
 macro_rules! fam_pair {
     ($P:literal, $p:expr, $q:expr, $x:expr) => {{
-        use $crate::errs::MkErr;
         let r1 = $p.parse($x);
         let r2 = $q.parse($x);
         $crate::contract(&r1);
@@ -242,16 +241,8 @@ macro_rules! fam_pair {
         $crate::check!(concat!($P, ":same-acceptance"), o1.is_some() == o2.is_some());
         $crate::check!(concat!($P, ":same-output"), $crate::obs::same(&o1, &o2));
         $crate::check!(concat!($P, ":same-error-count"), e1.len() == e2.len());
-        let mut i = 0;
-        while i < 4 {
-            if i < e1.len() && i < e2.len() {
-                $crate::check!(
-                    concat!($P, ":same-error"),
-                    e1[i].id() == e2[i].id() && e1[i].start() == e2[i].start() && e1[i].end() == e2[i].end()
-                );
-            }
-            i += 1;
-        }
+        // (error CONTENTS are not compared here: reading them is not affordable for the solver when several
+        // sites push errors; every emitter k reports emit_weight(k) copies, so the length identifies the set)
         $crate::cover!("cover:accept", o1.is_some());
         $crate::cover!("cover:reject", o1.is_none());
     }};
